@@ -390,6 +390,23 @@ def finish(ctx, res, rule, explanation=""):
         explanation=explanation or res.explanation or "see DESIGN.md",
     )
     cov.update(res.extra)
+    # schema: `exhaustive` is a plain boolean; keep any richer description next to it
+    if "exhaustive" in cov and not isinstance(cov["exhaustive"], bool):
+        cov["exhaustive_detail"] = cov["exhaustive"]
+        v = cov["exhaustive"]
+        cov["exhaustive"] = bool(v.get("value")) if isinstance(v, dict) else bool(v)
+    for k in ("evaluations", "distinct_nontrivial", "obligations", "discharged", "traces_validated_against_impl", "states", "transitions", "programs", "disagreements_checked"):
+        if k in cov and not isinstance(cov[k], int):
+            cov[k + "_detail"] = cov[k]
+            try:
+                cov[k] = int(cov[k])
+            except Exception:
+                del cov[k]
+    for k in ("checker_cmd", "rule", "explanation"):
+        if k in cov and not isinstance(cov[k], str):
+            cov[k] = json.dumps(cov[k], default=str)
+    if "trusted_base" in cov and not (isinstance(cov["trusted_base"], list) and all(isinstance(x, str) for x in cov["trusted_base"])):
+        cov["trusted_base"] = [str(x) for x in (cov["trusted_base"] if isinstance(cov["trusted_base"], list) else [cov["trusted_base"]])]
     ev = dict(property_id=ctx.prop_id, tier=ctx.tier, seed=ctx.seed, level=res.level, coverage=cov,
               assumptions=res.assumptions, wall_s=round(time.time() - ctx.t0, 2), violations=n_viol)
     os.makedirs(os.path.join(VERIF, "evidence"), exist_ok=True)
